@@ -69,11 +69,12 @@ theorem run_never_traps (evs : List Ev) : ∀ (s : Sys) (i j : Nat) (w : String)
 
 /-- the glue cannot emit any built-in call or transfer on index `h` -/
 def Silent (s : Sys) (h : Nat) : Prop :=
-  (∃ w, s.step (.ownMinus h) = .disabled w) ∧ (∃ w, s.step (.drop h) = .disabled w) ∧
-  (∃ w, s.step (.lend h) = .disabled w) ∧ (∀ r, ∃ w, s.step (.rep h r) = .disabled w)
+  (∃ w, s.step (.ownMinus h) = .disabled w) ∧ (∀ d, ∃ w, s.step (.drop h d) = .disabled w) ∧
+  (∃ w, s.step (.lend h) = .disabled w) ∧ (∀ r, ∃ w, s.step (.rep h r) = .disabled w) ∧
+  (∀ pid, ∃ w, s.step (.take h pid) = .disabled w)
 
 theorem silent_of_no_cell (s : Sys) (h : Nat) (hc : s.cells.get h = none) : Silent s h := by
-  refine ⟨?_, ?_, ?_, ?_⟩ <;> simp [Sys.step, hc]
+  refine ⟨?_, ?_, ?_, ?_, ?_⟩ <;> simp [Sys.step, hc]
 
 /-- **Owned handles passed to imports or returned from exports are transferred exactly once, and never
 used afterwards** (`own_transferred_once`, `no_use_after_take`) — *a one-step unfolding of the model*
@@ -98,17 +99,22 @@ theorem no_use_after_take {s s' : Sys} {h : Nat} (hs : s.step (.ownMinus h) = .o
 /-- **Owned handles received are dropped exactly once when their Rust value is dropped**
 (`own_received_dropped_once`): dropping the value produces the `resource.drop` (the event), after
 which the index is out of the table and no second drop (or any other use) can be produced … -/
-theorem own_received_dropped_once {s s' : Sys} {h : Nat} (hs : s.step (.drop h) = .ok s') :
+theorem own_received_dropped_once {s s' : Sys} {h : Nat} {d : Option Nat} (hs : s.step (.drop h d) = .ok s') :
     s'.table.get h = none ∧ s'.cells.get h = none ∧ Silent s' h := by
+  have key : ∀ t : Sys, t.table = s.table.del h → t.cells = s.cells.del h →
+      t.table.get h = none ∧ t.cells.get h = none ∧ Silent t h := by
+    intro t h1 h2
+    exact ⟨by simp [h1, Map.get_del], by simp [h2, Map.get_del], silent_of_no_cell _ h (by simp [h2, Map.get_del])⟩
   simp only [Sys.step] at hs
   split at hs
   · split at hs
     · split at hs
-      · simp only [Outcome.ok.injEq] at hs; subst hs
-        exact ⟨by simp [Map.get_del], by simp [Map.get_del], silent_of_no_cell _ h (by simp [Map.get_del])⟩
       · cases hs
+      split at hs
+      · cases hs
+      cases d <;> (simp only [Outcome.ok.injEq] at hs; subst hs; exact key _ rfl rfl)
     · simp only [Outcome.ok.injEq] at hs; subst hs
-      exact ⟨by simp [Map.get_del], by simp [Map.get_del], silent_of_no_cell _ h (by simp [Map.get_del])⟩
+      exact key _ rfl rfl
     · cases hs
   · cases hs
 
@@ -183,60 +189,156 @@ removes the value, after which nobody owns the resource any more, so no second r
 in every reachable state each live value has exactly one owner (one guest handle or the host), so
 none is destroyed early and none is forgotten. -/
 theorem exported_dtor_once {s : Sys} (hr : Reach s) :
-    (∀ s' rep, s.step (.hostDrop rep) = .ok s' →
+    (∀ s' rep d, s.step (.hostDrop rep d) = .ok s' →
         s'.heap.has rep = false ∧ s'.hostOwned.has rep = false ∧ (∀ h, s'.table.get h ≠ some (.own (.exp rep))) ∧
-        ∃ w, s'.step (.hostDrop rep) = .disabled w) ∧
-    (∀ s' h rep, s.table.get h = some (.own (.exp rep)) → s.step (.drop h) = .ok s' →
+        ∀ d', ∃ w, s'.step (.hostDrop rep d') = .disabled w) ∧
+    (∀ s' h rep d, s.table.get h = some (.own (.exp rep)) → s.step (.drop h d) = .ok s' →
         s'.heap.has rep = false ∧ s'.hostOwned.has rep = false ∧ (∀ h', s'.table.get h' ≠ some (.own (.exp rep)))) ∧
     (∀ rep, s.heap.has rep = true →
         ((∃ h, s.table.get h = some (.own (.exp rep))) ∨ s.hostOwned.has rep = true) ∧
         ¬ ((∃ h, s.table.get h = some (.own (.exp rep))) ∧ s.hostOwned.has rep = true)) := by
   have hi := reach_inv hr
   refine ⟨?_, ?_, ?_⟩
-  · intro s' rep hs
+  · intro s' rep d hs
     simp only [Sys.step] at hs
     split at hs
     · cases hs
     rename_i ho
     split at hs
-    · simp only [Outcome.ok.injEq] at hs; subst hs
-      have hno := (hi.owned_live rep (by simpa using ho)).2
-      refine ⟨by simp [NSet.has_del], by simp [NSet.has_del], hno, ?_⟩
-      simp [Sys.step, NSet.has_del]
     · cases hs
-  · intro s' h rep ht hs
+    split at hs
+    · cases hs
+    have hno := (hi.owned_live rep (by simpa using ho)).2
+    have fin : ∀ t : Sys, t.hostOwned = s.hostOwned.del rep → t.heap = Map.del s.heap rep → t.table = s.table →
+        t.heap.has rep = false ∧ t.hostOwned.has rep = false ∧ (∀ h, t.table.get h ≠ some (.own (.exp rep))) ∧
+        ∀ d', ∃ w, t.step (.hostDrop rep d') = .disabled w := by
+      intro t h1 h2 h3
+      refine ⟨by simp [h2, NSet.has_del], by simp [h1, NSet.has_del], by rw [h3]; exact hno, ?_⟩
+      intro d'
+      simp [Sys.step, h1, NSet.has_del]
+    cases d <;> (simp only [Outcome.ok.injEq] at hs; subst hs; exact fin _ rfl rfl rfl)
+  · intro s' h rep d ht hs
+    have fin : ∀ t : Sys, t.hostOwned = s.hostOwned → t.heap = Map.del s.heap rep → t.table = s.table.del h →
+        t.heap.has rep = false ∧ t.hostOwned.has rep = false ∧ (∀ h', t.table.get h' ≠ some (.own (.exp rep))) := by
+      intro t h1 h2 h3
+      refine ⟨by simp [h2, NSet.has_del], ?_, ?_⟩
+      · rw [h1]
+        cases ho : s.hostOwned.has rep with
+        | false => rfl
+        | true => exact absurd ht ((hi.owned_live rep ho).2 h)
+      · intro h' e
+        rw [h3, Map.get_del] at e
+        split at e
+        · cases e
+        · rename_i hne
+          exact hne (hi.uniq h h' rep ht e)
     simp only [Sys.step] at hs
     split at hs
     · rw [ht] at hs
       simp only at hs
       split at hs
-      · simp only [Outcome.ok.injEq] at hs; subst hs
-        refine ⟨by simp [NSet.has_del], ?_, ?_⟩
-        · cases ho : s.hostOwned.has rep with
-          | false => rfl
-          | true => exact absurd ht ((hi.owned_live rep ho).2 h)
-        · intro h' e
-          simp only [Map.get_del] at e
-          split at e
-          · cases e
-          · rename_i hne
-            exact hne (hi.uniq h h' rep ht e)
       · cases hs
+      split at hs
+      · cases hs
+      cases d <;> (simp only [Outcome.ok.injEq] at hs; subst hs; exact fin _ rfl rfl rfl)
     · cases hs
   · intro rep hl
     refine ⟨hi.no_orphan rep hl, ?_⟩
     rintro ⟨⟨h, ht⟩, ho⟩
     exact (hi.owned_live rep ho).2 h ht
 
+/-- **Every payload is dropped exactly once** (`payload_dropped_exactly_once`), over all event sequences
+including `into_inner`.  In every reachable state: the drop log (one entry per `Drop` run of a payload,
+whether inside a destructor call or by user code) has no duplicate; it lists exactly the payloads whose
+location is `dead`; a payload sitting in a representation's slot is neither held by user code nor dead and
+its representation is alive; and when the history ends (`done` accepted) every payload ever created is
+in the log — so each was dropped once and only once.  The second group says where drops come from:
+`into_inner` empties the slot and hands the payload to user code, and a destructor run drops a payload
+exactly if the slot still holds one (after `into_inner` it drops nothing). -/
+theorem payload_dropped_exactly_once {s : Sys} (hr : Reach s) :
+    (s.dropLog.Nodup ∧ (∀ pid, pid ∈ s.dropLog ↔ s.loc.get pid = some .dead) ∧
+     (∀ rep pid, s.slot.get rep = some pid → s.loc.get pid = some (.inSlot rep) ∧ s.heap.has rep = true) ∧
+     (∀ s', s.step .done = .ok s' → ∀ pid l, s.loc.get pid = some l → pid ∈ s.dropLog)) ∧
+    ((∀ s' h pid, s.step (.take h pid) = .ok s' → ∃ rep, s.slot.get rep = some pid ∧ s'.slot.get rep = none ∧
+        s'.loc.get pid = some .held ∧ s'.dropLog = s.dropLog) ∧
+     (∀ s' h rep d, s.table.get h = some (.own (.exp rep)) → s.step (.drop h d) = .ok s' → s.slot.get rep = d) ∧
+     (∀ s' rep d, s.step (.hostDrop rep d) = .ok s' → s.slot.get rep = d)) := by
+  have hi := reach_inv hr
+  refine ⟨⟨hi.log_nodup, hi.log_dead, hi.slot_loc, ?_⟩, ?_, ?_, ?_⟩
+  · intro s' hs pid l hl
+    simp only [Sys.step] at hs
+    split at hs
+    · cases hs
+    split at hs
+    · cases hs
+    split at hs
+    · cases hs
+    split at hs
+    · cases hs
+    split at hs
+    · cases hs
+    rename_i hheap
+    split at hs
+    · cases hs
+    rename_i hheld
+    rw [hi.log_dead]
+    cases l with
+    | dead => exact hl
+    | held =>
+        exfalso
+        apply hheld
+        simp only [List.any_eq_true]
+        exact ⟨(pid, .held), Map.get_some_mem _ _ _ hl, by simp⟩
+    | inSlot rep =>
+        exfalso
+        have h1 := hi.loc_slot pid rep hl
+        have h2 := (hi.slot_loc rep pid h1).2
+        simp [NSet.has, Map.isEmpty_get s.heap (by simpa using hheap) rep] at h2
+  · intro s' h pid hs
+    simp only [Sys.step] at hs
+    split at hs
+    · rename_i rep _ _
+      split at hs
+      · rename_i hslot
+        simp only [Outcome.ok.injEq] at hs; subst hs
+        exact ⟨rep, hslot, by simp [Map.get_del], by simp [Map.get_put], rfl⟩
+      · cases hs
+    · cases hs
+  · intro s' h rep d ht hs
+    simp only [Sys.step] at hs
+    split at hs
+    · rw [ht] at hs
+      simp only at hs
+      split at hs
+      · cases hs
+      split at hs
+      · cases hs
+      rename_i hslot
+      simpa using hslot
+    · cases hs
+  · intro s' rep d hs
+    simp only [Sys.step] at hs
+    split at hs
+    · cases hs
+    split at hs
+    · cases hs
+    split at hs
+    · cases hs
+    rename_i hslot
+    simpa using hslot
+
 /-! ## non-vacuity: a history exercising every event is a run of the model that ends `ok` -/
 
 example :
-    (match Sys.run {} [.callBegin 1, .new 5 4096, .callEnd 1, .ownMinus 5,          -- constructor: guest creates, host receives
-      .callBegin 2, .use 4096, .borPlus 6 (.imp 1) 2, .lend 6, .drop 6, .callEnd 2,  -- method call + scoped borrow of an imported resource
-      .ownPlus 7 (.imp 2), .lend 7, .ownMinus 7,                                    -- imported own: lent, then transferred
-      .callBegin 3, .ownPlus 8 (.exp 4096), .rep 8 4096, .drop 8, .callEnd 3,       -- host hands the exported resource back: guest drops it (dtor)
-      .done] 0 with | .ok _ => true | _ => false) = true ∧
-    (match Sys.run {} [.ownPlus 7 (.imp 2), .ownMinus 7, .drop 7] 0 with | .disabled 2 _ => true | _ => false) = true := by
+    (match Sys.run {} [.callBegin 1, .mk 100, .new 5 4096 100, .callEnd 1, .ownMinus 5,   -- constructor: guest creates, host receives
+      .callBegin 2, .use 4096, .borPlus 6 (.imp 1) 2, .lend 6, .drop 6 none, .callEnd 2,    -- method call + scoped borrow of an imported resource
+      .ownPlus 7 (.imp 2), .lend 7, .ownMinus 7,                                           -- imported own: lent, then transferred
+      .callBegin 3, .ownPlus 8 (.exp 4096), .rep 8 4096, .take 8 100, .drop 8 none,         -- the exported resource comes back: into_inner, handle
+      .callEnd 3, .udrop 100,                                                              --   dropped (destructor drops nothing), payload dropped later
+      .done] 0 with | .ok s => s.dropLog == [100] | _ => false) = true ∧
+    -- the destructor dropping the payload again after into_inner is not a trace of the model
+    (match Sys.run {} [.mk 1, .new 5 64 1, .rep 5 64, .take 5 1, .drop 5 (some 1)] 0 with | .disabled 4 _ => true | _ => false) = true ∧
+    (match Sys.run {} [.ownPlus 7 (.imp 2), .ownMinus 7, .drop 7 none] 0 with | .disabled 2 _ => true | _ => false) = true := by
   decide
 
 end Witverif.Props.C07
